@@ -885,7 +885,7 @@ func GenerateRun(seed uint64, opt GenOptions) (*World, []Op) {
 	if g.opt.W == nil {
 		g.opt.W = defaultWeights
 	}
-	if g.opt.TCPConfigMap && g.opt.W["tcpcm_change"] == 0 {
+	if _, set := g.opt.W["tcpcm_change"]; g.opt.TCPConfigMap && !set {
 		w := map[string]int{"tcpcm_change": 5}
 		for k, v := range g.opt.W {
 			w[k] = v
